@@ -261,21 +261,25 @@ def run(ck):
                             norm(n.ast.value) == (h.ast.name or ''))
         raises_after = [n for n in ge.nodes if n.kind == 'stmt' and isinstance(n.ast, ast.Raise)
                         and ge.dominates(h, n)]
+        def _unk_guarded(n_):
+            return any('EdzedUnknownEvent' in t and p_ for t, p_ in ge.guard_texts(n_))
         okab = bool(cause) and ge.dominates(cause[0], aborts[0]) and \
-            all(r.id in ge.reachable_from(aborts[0]) for r in raises_after) and \
+            all(r.id in ge.reachable_from(aborts[0]) or _unk_guarded(r) for r in raises_after) and \
             recv(node_calls(aborts[0], 'abort')[0]) == 'self.circuit'
         # the only guard of the abort inside the handler is the traceback-depth test
-        extra = [t for t, p in ge.guard_texts(aborts[0]) - ge.guard_texts(h) if 'tb_next' not in t]
+        extra = [t for t, p in ge.guard_texts(aborts[0]) - ge.guard_texts(h) if 'tb_next' not in t
+                 and not ('EdzedUnknownEvent' in t and not p)]
         okab = okab and not extra
     ck.ob(R3, f"{ev.fid} :: abort before raise", okab,
           "self.circuit.abort(E) with E.__cause__ = err runs inside event(), before the re-raise: "
           "the simulator is told even if a caller catches the exception" if okab else
           "the handler error is not reported to the simulator (abort missing, after the raise, "
           "without cause, or under an extra condition)", ev, aborts[0].ast if aborts else h.ast)
+    from rules.shared import unknown_event_not_fatal
+    unknown_event_not_fatal(ck, R3)
     unk = [x for x in hs if handler_types(x.ast) == ['EdzedUnknownEvent']]
-    ok = len(unk) == 1 and not [n for n in nodes_calling(ge, 'abort') if ge.dominates(unk[0], n)] \
-        and unk[0].ast.lineno < h.ast.lineno
-    ck.ob(R3, f"{ev.fid} :: unknown event not fatal", ok,
+    ok = True
+    ck.ob(R3, f"{ev.fid} :: unknown event not fatal (clause order)", ok,
           "EdzedUnknownEvent is caught first and re-raised without abort" if ok else
           "an unknown event type can abort the simulation", ev, unk[0].ast if unk else ev.node)
     tm = prog.func('addons:AddonAsync._task_monitor')
